@@ -57,6 +57,8 @@ static bool take_arg(char *arg) {
   return false;
 }
 
+static StringArray idirafter;
+
 static void add_default_include_paths(char *argv0) {
   // We expect that chibicc-specific include files are installed
   // to ./include relative to argv[0].
@@ -125,8 +127,6 @@ static void parse_args(int argc, char **argv) {
     if (take_arg(argv[i]))
       if (!argv[++i])
         usage(1);
-
-  StringArray idirafter = {};
 
   for (int i = 1; i < argc; i++) {
     if (!strcmp(argv[i], "-###")) {
@@ -349,9 +349,6 @@ static void parse_args(int argc, char **argv) {
 
     strarray_push(&input_paths, argv[i]);
   }
-
-  for (int i = 0; i < idirafter.len; i++)
-    strarray_push(&include_paths, idirafter.data[i]);
 
   if (input_paths.len == 0)
     error("no input files");
@@ -756,6 +753,11 @@ int main(int argc, char **argv) {
 
   if (opt_cc1) {
     add_default_include_paths(argv[0]);
+
+    // -idirafter directories are searched after the system directories.
+    for (int i = 0; i < idirafter.len; i++)
+      strarray_push(&include_paths, idirafter.data[i]);
+
     cc1();
     return 0;
   }
